@@ -1,4 +1,522 @@
-/-! Model/C07 — executable model (core Lean only; imports only NibabelModel.Basic.* / other Model files). -/
+/-
+  Model/C07 — executable step-machine model of "saving an image" (`to_file_map`) with fault injection.
+
+  Python source modelled (line numbers of /repo after the `fix:` commits 229c8cbf and 7a63ed50):
+  * `AnalyzeImage.to_file_map`                     nibabel/analyze.py:990-1062   (`analyzeSave`)
+  * `Nifti1Pair.to_file_map`, `get_data_dtype(finalize=True)`, `set_data_dtype`
+                                                   nibabel/nifti1.py:2229-2378   (`niftiSave`, `setDtypeOp`)
+  * `Nifti1Header.write_to` (offset consumption, extension flag, extensions)
+                                                   nibabel/nifti1.py:880-901, 466-495 (`chooseOffset`, `extCalls`)
+  * `Spm99AnalyzeImage.to_file_map` (.mat holder)  nibabel/spm99analyze.py:302-333 (`spmSave`)
+  * `MGHImage.to_file_map`, `writehdr_to`, `writeftr_to`, `_write_data`
+                                                   nibabel/freesurfer/mghformat.py:387-425, 537-581 (`mghSave`)
+  * `Cifti2Image.to_file_map`                      nibabel/cifti2/cifti2.py:1555-1590 (`ciftiSave`)
+  * `seek_tell`                                    nibabel/volumeutils.py:839-866 (`seekTell`)
+  * `FileHolder.get_prepare_fileobj`, `Opener.close_if_mine`
+                                                   nibabel/fileholders.py:52-82, nibabel/openers.py:246-249 (`prepare`, `closeIfMine`)
+  and the ORIGINAL control flow of the pinned tree (before the two fix commits): `analyzeSaveOrig`,
+  `niftiSaveOrig`.
+
+  Abstractions
+  * the image is (header consumables, dtype alias, data id, affine id, header-object id) + file_map id;
+    floats in the header (scl_slope / scl_inter) are opaque bit patterns, `none` = NaN;
+  * a destination is three file objects (header / image / mat) of which only the position, the number of
+    I/O calls and the number of bytes accepted matter; the bytes written are abstracted to a list of
+    `Chunk`s that records, for every piece, the state it was computed from;
+  * a fault makes I/O call number k raise OSError (`Fault.call k`) or makes the write that would exceed
+    a byte budget raise OSError (`Fault.bytes b`);
+  * EXTERNAL functions enter through `Env` (contracts in the comments there): dtype-alias resolution
+    (`_get_analyze_compat_dtype` / `_get_smallest_dtype`), `make_array_writer` (raises or not, which
+    slope/inter it computes, how many `write` calls `to_fileobj` makes), `scipy.io.savemat` write sizes,
+    sizes of the NIfTI extensions.
+  * `update_header()` is the identity on a harmonised image (the correspondence harmonises every image
+    before its first observation; CIFTI-2: after the first, normalising, save).
+-/
+import NibabelModel.Generated.C07
 namespace Nb.C07
+
+inductive Cls where
+  | analyze | spm99 | spm2 | n1pair | n1single | n2pair | n2single | mgh | cifti2
+  deriving Repr, DecidableEq, Inhabited
+
+/-- header-class traits (regenerated from the source tree); a CIFTI-2 image carries a Nifti2Header -/
+def Cls.traits : Cls → Gen.Traits
+  | .analyze => Gen.analyze | .spm99 => Gen.spm99 | .spm2 => Gen.spm2
+  | .n1pair => Gen.n1pair | .n1single => Gen.n1single
+  | .n2pair => Gen.n2pair | .n2single => Gen.n2single
+  | .mgh => Gen.mgh | .cifti2 => Gen.n2single
+
+/-- classes derived from `Nifti1Pair`: they have `_dtype_alias` and the wrapping `to_file_map` -/
+def Cls.isNifti : Cls → Bool
+  | .n1pair | .n1single | .n2pair | .n2single => true
+  | _ => false
+
+inductive Alias where | compat | smallest
+  deriving Repr, DecidableEq, Inhabited
+
+/-- a float header field as raw bits; `none` = NaN ("compute at write time") -/
+abbrev Scl := Option Nat
+
+/-- the consumable header fields -/
+structure Hdr where
+  offset : Nat
+  dtype  : Nat
+  slope  : Scl
+  inter  : Scl
+  deriving Repr, DecidableEq, Inhabited
+
+/-- everything the property calls "what the image represents" (+ identity of the header object) -/
+structure Core where
+  hdr    : Hdr
+  alias  : Option Alias
+  data   : Nat
+  affine : Nat
+  hdrObj : Nat
+  deriving Repr, DecidableEq, Inhabited
+
+structure Img where
+  core    : Core
+  fileMap : Nat
+  deriving Repr, DecidableEq, Inhabited
+
+inductive Err where
+  | os | writer | headerData | value | type | assertion
+  deriving Repr, DecidableEq, Inhabited
+
+inductive Fault where
+  | none
+  | call (k : Nat)      -- the k-th I/O call (1-based) on the destination file objects raises OSError
+  | bytes (b : Nat)     -- the write that would take the accepted bytes beyond b raises OSError
+  deriving Repr, DecidableEq, Inhabited
+
+inductive File where | header | image | mat
+  deriving Repr, DecidableEq, Inhabited
+
+inductive IoKind where
+  | write (n : Nat) | seek (target : Nat) | tell | close
+  deriving Repr, DecidableEq, Inhabited
+
+structure IoCall where
+  file : File
+  kind : IoKind
+  deriving Repr, DecidableEq, Inhabited
+
+/-- abstract bytes: each piece with the state it was computed from -/
+inductive Chunk where
+  | hdr (f : File) (h : Hdr) (affine : Nat)
+  | data (f : File) (dataId code : Nat) (scaled : Bool) (slope inter : Scl)
+  | mat (affine : Nat)
+  | trailer (f : File)
+  deriving Repr, DecidableEq, Inhabited
+
+/-- externals of `make_array_writer(data, out_dtype, …)` / `arr_writer.to_fileobj` for ONE out dtype code -/
+structure WEntry where
+  wok     : Bool    -- make_array_writer succeeds (no WriterError) when scaling has to be computed
+  slope   : Scl     -- get_slope_inter(arr_writer) as it lands in the header field
+  inter   : Scl
+  nWrites : Nat     -- number of `write` calls made by to_fileobj
+  wBytes  : Nat     -- bytes per such call
+  deriving Repr, DecidableEq, Inhabited
+
+/-- EXTERNAL behaviour, fixed for one save request.
+    * `owned`: the Opener owns the file object (opened by name) → `close_if_mine` closes; otherwise
+      `get_prepare_fileobj` seeks the caller's file object to `pos`=0 instead.
+    * `exts`: (content bytes, pad bytes) of each NIfTI extension; size on disk = 8 + content + pad.
+    * `mat`: sizes of the `write` calls of `scipy.io.savemat` (SPM) / of the MGH footer.
+    * `resolve`: `_get_analyze_compat_dtype` / `_get_smallest_dtype` on the image data; `none` = ValueError.
+    * `writer`: see `WEntry`. -/
+structure Env where
+  owned   : Bool
+  exts    : List (Nat × Nat)
+  mat     : List Nat
+  resolve : Alias → Option Nat
+  writer  : Nat → WEntry
+
+structure World where
+  img     : Core
+  bound   : Bool := false           -- `self.file_map = file_map` has been executed
+  calls   : Nat := 0
+  written : Nat := 0
+  posH    : Nat := 0
+  posI    : Nat := 0
+  posM    : Nat := 0
+  log     : List IoCall := []       -- newest first
+  out     : List Chunk := []        -- newest first
+  deriving Repr, DecidableEq, Inhabited
+
+abbrev Res := Option Err × World
+
+def World.pos (w : World) : File → Nat
+  | .header => w.posH | .image => w.posI | .mat => w.posM
+
+def World.setPos (w : World) (f : File) (p : Nat) : World :=
+  match f with
+  | .header => { w with posH := p } | .image => { w with posI := p } | .mat => { w with posM := p }
+
+def World.setHdr (w : World) (h : Hdr) : World := { w with img := { w.img with hdr := h } }
+
+/-- effect of a successful I/O call on the destination -/
+def applyCall (c : IoCall) (w : World) : World :=
+  match c.kind with
+  | .write n => { w.setPos c.file (w.pos c.file + n) with written := w.written + n }
+  | .seek t => w.setPos c.file t
+  | .tell => w
+  | .close => w
+
+/-- one I/O call on a (possibly faulty) destination file object -/
+def ioCall (fault : Fault) (c : IoCall) (w : World) : Res :=
+  let w1 := { w with calls := w.calls + 1, log := c :: w.log }
+  match fault with
+  | .none => (none, applyCall c w1)
+  | .call k => if w1.calls = k then (some .os, w1) else (none, applyCall c w1)
+  | .bytes b =>
+      match c.kind with
+      | .write n => if w1.written + n > b then (some .os, { w1 with written := b }) else (none, applyCall c w1)
+      | _ => (none, applyCall c w1)
+
+/-- sequencing: continue only when nothing was raised -/
+def Res.andThen (r : Res) (f : World → Res) : Res :=
+  match r with
+  | (none, w) => f w
+  | (some e, w) => (some e, w)
+
+def ioMany (fault : Fault) : List IoCall → World → Res
+  | [], w => (none, w)
+  | c :: cs, w => (ioCall fault c w).andThen (ioMany fault cs)
+
+/-- per-request constants visible to the body of `AnalyzeImage.to_file_map` -/
+structure Ctx where
+  t       : Gen.Traits
+  env     : Env
+  fault   : Fault
+  went    : WEntry      -- writer externals for the out dtype
+  scaleMe : Bool        -- slope and inter both NaN at entry
+  hdrLocal : Nat        -- the local `hdr` (object id)
+
+inductive Step where
+  | mkWriter                      -- make_array_writer / ArrayWriter(check_scaling=False)   may raise WriterError
+  | setSlopeInter                 -- if scale_me: hdr.set_slope_inter(*get_slope_inter(arr_writer))   MUTATES slope, inter
+  | chooseOffset                  -- Nifti1Header.write_to, single file: vox_offset 0 → minimum     MUTATES offset; may raise HeaderDataError
+  | ios (cs : List IoCall)        -- plain I/O calls
+  | seekTell (f : File) (write0 : Bool)   -- seek_tell(f, hdr.get_data_offset(), write0)
+  | emitHdr (f : File)            -- the header bytes are taken from the header NOW
+  | emitData (f : File)           -- the data bytes are computed by the writer
+  | emitMat | emitTrailer (f : File)
+  | bindHeader                    -- self._header = hdr
+  | bindFileMap                   -- self.file_map = file_map
+  deriving Repr, DecidableEq, Inhabited
+
+def extTotal (exts : List (Nat × Nat)) : Nat := (exts.map (fun e => 8 + e.1 + e.2)).sum
+
+/-- `seek_tell(fileobj, offset, write0)` (volumeutils.py:839-866): a failing seek is absorbed when the
+    position already is right, or (write0) by writing zeros up to the offset -/
+def seekTell (fault : Fault) (f : File) (write0 : Bool) (w : World) : Res :=
+  let target := w.img.hdr.offset
+  match ioCall fault ⟨f, .seek target⟩ w with
+  | (some .os, w1) =>
+      (ioCall fault ⟨f, .tell⟩ w1).andThen fun w2 =>
+        if w2.pos f = target then (none, w2)
+        else if !write0 then (some .os, w2)
+        else if w2.pos f > target then (some .os, w2)
+        else
+          (ioCall fault ⟨f, .write (target - w2.pos f)⟩ w2).andThen fun w3 =>
+            (ioCall fault ⟨f, .tell⟩ w3).andThen fun w4 =>
+              if w4.pos f = target then (none, w4) else (some .assertion, w4)
+  | r => r
+
+def exec (c : Ctx) : Step → World → Res
+  | .mkWriter, w => if c.scaleMe && !c.went.wok then (some .writer, w) else (none, w)
+  | .setSlopeInter, w =>
+      if c.scaleMe then
+        (none, w.setHdr { w.img.hdr with
+          slope := if c.t.hasSlope then c.went.slope else w.img.hdr.slope,
+          inter := if c.t.hasInter then c.went.inter else w.img.hdr.inter })
+      else (none, w)
+  | .chooseOffset, w =>
+      if c.t.single then
+        let minOff := c.t.singleVoxOffset + extTotal c.env.exts
+        if w.img.hdr.offset = 0 then (none, w.setHdr { w.img.hdr with offset := minOff })
+        else if w.img.hdr.offset < minOff then (some .headerData, w)
+        else (none, w)
+      else (none, w)
+  | .ios cs, w => ioMany c.fault cs w
+  | .seekTell f w0, w => seekTell c.fault f w0 w
+  | .emitHdr f, w => (none, { w with out := .hdr f w.img.hdr w.img.affine :: w.out })
+  | .emitData f, w =>
+      (none, { w with out := .data f w.img.data w.img.hdr.dtype c.scaleMe
+                               (if c.scaleMe then c.went.slope else none)
+                               (if c.scaleMe then c.went.inter else none) :: w.out })
+  | .emitMat, w => (none, { w with out := .mat w.img.affine :: w.out })
+  | .emitTrailer f, w => (none, { w with out := .trailer f :: w.out })
+  | .bindHeader, w => (none, { w with img := { w.img with hdrObj := c.hdrLocal } })
+  | .bindFileMap, w => (none, { w with bound := true })
+
+def runSteps (c : Ctx) : List Step → World → Res
+  | [], w => (none, w)
+  | s :: ss, w => (exec c s w).andThen (runSteps c ss)
+
+/-- `FileHolder.get_prepare_fileobj` on a holder with a file object: `obj.seek(self.pos)`; on a
+    file opened by the Opener itself (owned) nothing is called on the object -/
+def prepare (env : Env) (f : File) : List Step :=
+  if env.owned then [] else [.ios [⟨f, .seek 0⟩]]
+
+/-- `Opener.close_if_mine` -/
+def closeIfMine (env : Env) (f : File) : List Step :=
+  if env.owned then [.ios [⟨f, .close⟩]] else []
+
+/-- `NiftiExtension.write_to`: tell, write esize/ecode, write content, tell, write padding (if any) -/
+def extCalls (f : File) (e : Nat × Nat) : List IoCall :=
+  [⟨f, .tell⟩, ⟨f, .write 8⟩, ⟨f, .write e.1⟩, ⟨f, .tell⟩] ++ (if e.2 = 0 then [] else [⟨f, .write e.2⟩])
+
+/-- extension part of `Nifti1Header.write_to` (nifti1.py:892-901); Analyze/SPM headers: `exts = []`, not single -/
+def extSteps (c : Ctx) (f : File) : List Step :=
+  if c.env.exts.isEmpty then (if c.t.single then [.ios [⟨f, .write 4⟩]] else [])
+  else [.ios (⟨f, .write 4⟩ :: c.env.exts.flatMap (extCalls f))]
+
+def dataCalls (c : Ctx) (f : File) : List IoCall :=
+  List.replicate c.went.nWrites ⟨f, .write c.went.wBytes⟩
+
+/-- body of the `try:` block of `AnalyzeImage.to_file_map` (analyze.py:1020-1051) -/
+def coreBody (c : Ctx) : List Step :=
+  let hf : File := if c.t.single then .image else .header
+  [.mkWriter] ++ prepare c.env hf ++ (if c.t.single then [] else prepare c.env .image) ++
+  [.setSlopeInter, .chooseOffset, .emitHdr hf, .ios [⟨hf, .write c.t.sizeofHdr⟩]] ++ extSteps c hf ++
+  [.seekTell .image true, .emitData .image, .ios (dataCalls c .image)] ++
+  closeIfMine c.env hf ++ (if c.t.single then [] else closeIfMine c.env .image) ++
+  [.bindHeader, .bindFileMap]
+
+inductive DtReq where
+  | none | code (c : Nat) | alias (a : Alias) | bad
+  deriving Repr, DecidableEq, Inhabited
+
+/-- `hdr.set_data_dtype(dtype)` on the header (no alias support there): `none` = HeaderDataError -/
+def applyOverride (t : Gen.Traits) (dt : DtReq) (h : Hdr) : Option Hdr :=
+  match dt with
+  | .none => some h
+  | .code c => if c ∈ t.codes then some { h with dtype := c } else none
+  | .alias _ => none
+  | .bad => none
+
+/-- `hdr.set_data_dtype(hdr_get_data_dtype_result)`: the code obtained by going through the dtype -/
+def rtCode (t : Gen.Traits) (c : Nat) : Nat :=
+  match t.roundtrip.lookup c with
+  | some c' => c'
+  | none => c
+
+/-- the `finally:` block of `AnalyzeImage.to_file_map` (analyze.py:1052-1061) -/
+def restore (t : Gen.Traits) (saved : Hdr) (h : Hdr) : Hdr :=
+  { offset := saved.offset
+    dtype := rtCode t saved.dtype
+    slope := if t.hasSlope then saved.slope else h.slope
+    inter := if t.hasInter then saved.inter else h.inter }
+
+def slopeOf (t : Gen.Traits) (h : Hdr) : Scl := if t.hasSlope then h.slope else none
+def interOf (t : Gen.Traits) (h : Hdr) : Scl := if t.hasInter then h.inter else none
+
+def mkCtx (t : Gen.Traits) (env : Env) (fault : Fault) (w : World) (h1 : Hdr) : Ctx :=
+  { t := t, env := env, fault := fault, went := env.writer h1.dtype,
+    scaleMe := (slopeOf t h1).isNone && (interOf t h1).isNone, hdrLocal := w.img.hdrObj }
+
+/-- `try: body finally: cleanup` where the cleanup cannot raise -/
+def tryFinally (body : World → Res) (cleanup : World → World) (w : World) : Res :=
+  let r := body w
+  (r.1, cleanup r.2)
+
+/-- `AnalyzeImage.to_file_map` as it is NOW -/
+def analyzeSave (t : Gen.Traits) (env : Env) (dt : DtReq) (fault : Fault) (w : World) : Res :=
+  let h0 := w.img.hdr
+  match applyOverride t dt h0 with
+  | none => (some .headerData, w)
+  | some h1 =>
+      let c := mkCtx t env fault w h1
+      tryFinally (runSteps c (coreBody c)) (fun w' => w'.setHdr (restore t h0 w'.img.hdr)) (w.setHdr h1)
+
+/-- ORIGINAL control flow (pinned tree): `except WriterError: restore; raise` around the writer
+    construction only, restore again at the very end; nothing on any other exception -/
+def analyzeSaveOrig (t : Gen.Traits) (env : Env) (dt : DtReq) (fault : Fault) (w : World) : Res :=
+  let h0 := w.img.hdr
+  match applyOverride t dt h0 with
+  | none => (some .headerData, w)
+  | some h1 =>
+      let c := mkCtx t env fault w h1
+      let fin := fun (w' : World) => w'.setHdr (restore t h0 w'.img.hdr)
+      match exec c .mkWriter (w.setHdr h1) with
+      | (some e, w1) => (some e, if e = .writer then fin w1 else w1)
+      | (none, w1) =>
+          match runSteps c ((coreBody c).drop 1) w1 with
+          | (some e, w2) => (some e, w2)
+          | (none, w2) => (none, fin w2)
+
+def World.setAlias (w : World) (a : Option Alias) : World := { w with img := { w.img with alias := a } }
+def World.setDtype (w : World) (c : Nat) : World := w.setHdr { w.img.hdr with dtype := c }
+
+/-- the `finally:` of `Nifti1Pair.to_file_map`: `super().set_data_dtype(hdr_dtype); self.set_data_dtype(img_dtype)` -/
+def niftiRestore (t : Gen.Traits) (alias0 : Option Alias) (dtype0 : Nat) (w : World) : World :=
+  let w1 := w.setDtype (rtCode t dtype0)
+  match alias0 with
+  | some a => w1.setAlias (some a)
+  | none => (w1.setAlias none).setDtype (rtCode t dtype0)
+
+/-- ORIGINAL `finally:` — `self.set_data_dtype(img_dtype)` only -/
+def niftiRestoreOrig (t : Gen.Traits) (alias0 : Option Alias) (dtype0 : Nat) (w : World) : World :=
+  match alias0 with
+  | some a => w.setAlias (some a)
+  | none => (w.setAlias none).setDtype (rtCode t dtype0)
+
+/-- `Nifti1Pair.to_file_map` parameterised by the Analyze-level save and the cleanup -/
+def niftiSaveWith (inner : World → Res) (cleanup : Option Alias → Nat → World → World)
+    (t : Gen.Traits) (env : Env) (w : World) : Res :=
+  let alias0 := w.img.alias
+  let dtype0 := w.img.hdr.dtype
+  match alias0 with
+  | none => tryFinally inner (cleanup alias0 dtype0) w
+  | some a =>
+      -- get_data_dtype(finalize=True)
+      match env.resolve a with
+      | none => (some .value, w)
+      | some c =>
+          if c ∈ t.codes then tryFinally inner (cleanup alias0 dtype0) ((w.setAlias none).setDtype c)
+          else (some .headerData, w.setAlias none)
+
+def niftiSave (t : Gen.Traits) (env : Env) (dt : DtReq) (fault : Fault) (w : World) : Res :=
+  niftiSaveWith (analyzeSave t env dt fault) (niftiRestore t) t env w
+
+def niftiSaveOrig (t : Gen.Traits) (env : Env) (dt : DtReq) (fault : Fault) (w : World) : Res :=
+  niftiSaveWith (analyzeSaveOrig t env dt fault) (niftiRestoreOrig t) t env w
+
+/-- `with holder.get_prepare_fileobj('wb') as f: body` — the prepare happens before the block is
+    entered; `__exit__` calls close_if_mine whether or not the body raised (an exception raised by
+    the close replaces the one in flight) -/
+def withOpened (c : Ctx) (f : File) (body : List Step) (w : World) : Res :=
+  match runSteps c (prepare c.env f) w with
+  | (none, w1) =>
+      let r := runSteps c body w1
+      let r2 := runSteps c (closeIfMine c.env f) r.2
+      (match r2.1 with | some e => some e | none => r.1, r2.2)
+  | r => r
+
+/-- body of the `with file_map['mat'].get_prepare_fileobj(mode='wb') as mfobj:` block -/
+def matBody (env : Env) : List Step :=
+  [.emitMat, .ios (env.mat.map fun n => ⟨.mat, .write n⟩)]
+
+/-- `Spm99AnalyzeImage.to_file_map`: the Analyze save, then the `.mat` file -/
+def spmSaveWith (inner : World → Res) (t : Gen.Traits) (env : Env) (fault : Fault) (w : World) : Res :=
+  match inner w with
+  | (none, w1) => withOpened (mkCtx t env fault w1 w1.img.hdr) .mat (matBody env) w1
+  | r => r
+
+def spmSave (t : Gen.Traits) (env : Env) (dt : DtReq) (fault : Fault) (w : World) : Res :=
+  spmSaveWith (analyzeSave t env dt fault) t env fault w
+
+/-- body of the `with file_map['image'].get_prepare_fileobj('wb') as mghf:` block:
+    writehdr_to (seek 0, write), _write_data (array_to_file with offset → seek_tell without write0),
+    writeftr_to (seek footer offset, write) -/
+def mghBody (c : Ctx) : List Step :=
+  [.emitHdr .image, .ios [⟨.image, .seek 0⟩, ⟨.image, .write c.t.sizeofHdr⟩],
+   .seekTell .image false, .emitData .image, .ios (dataCalls c .image),
+   .ios (⟨.image, .seek (c.t.singleVoxOffset + c.went.nWrites * c.went.wBytes)⟩ ::
+          c.env.mat.map fun n => ⟨.image, .write n⟩),
+   .emitTrailer .image]
+
+def mghCtx (t : Gen.Traits) (env : Env) (fault : Fault) (w : World) : Ctx :=
+  { mkCtx t env fault w w.img.hdr with scaleMe := false }
+
+/-- `MGHImage.to_file_map` (no dtype parameter: passing one is a TypeError) -/
+def mghSave (t : Gen.Traits) (env : Env) (dt : DtReq) (fault : Fault) (w : World) : Res :=
+  if dt ≠ .none then (some .type, w) else
+  match withOpened (mghCtx t env fault w) .image (mghBody (mghCtx t env fault w)) w with
+  | (none, w1) => runSteps (mghCtx t env fault w) [.bindHeader, .bindFileMap] w1
+  | r => r
+
+/-- `Cifti2Image.to_file_map`: a temporary `Nifti2Image(data, None, header, dtype=dtype)` — whose
+    constructor COPIES the header, resets offset/slope/inter and applies `dtype` through
+    `Nifti1Pair.set_data_dtype` (aliases allowed) — is saved; the CIFTI image itself is not touched and
+    its file_map is never rebound.  (The normalisation of intent / pixdim / extension is idempotent and
+    assumed done.) -/
+def ciftiSave (env : Env) (dt : DtReq) (fault : Fault) (w : World) : Res :=
+  let t := Gen.n2single
+  let h := { w.img.hdr with offset := 0, slope := none, inter := none }
+  let inner0 : Core := { w.img with hdr := h, alias := none, affine := 0, hdrObj := w.img.hdrObj + 1 }
+  let inner : Option Core :=
+    match dt with
+    | .none => some inner0
+    | .code c => if c ∈ t.codes then some { inner0 with hdr := { h with dtype := c } } else none
+    | .alias a => some { inner0 with alias := some a }
+    | .bad => none
+  match inner with
+  | none => (some .headerData, w)
+  | some i =>
+      let r := niftiSave t env .none fault { w with img := i }
+      (r.1, { r.2 with img := w.img, bound := w.bound })
+
+def saveWorld (cls : Cls) (env : Env) (dt : DtReq) (fault : Fault) (w : World) : Res :=
+  match cls with
+  | .analyze => analyzeSave cls.traits env dt fault w
+  | .spm99 | .spm2 => spmSave cls.traits env dt fault w
+  | .n1pair | .n1single | .n2pair | .n2single => niftiSave cls.traits env dt fault w
+  | .mgh => mghSave cls.traits env dt fault w
+  | .cifti2 => ciftiSave env dt fault w
+
+/-- the ORIGINAL save of the pinned tree (Analyze / SPM core and NIfTI wrapper) -/
+def saveWorldOrig (cls : Cls) (env : Env) (dt : DtReq) (fault : Fault) (w : World) : Res :=
+  match cls with
+  | .n1pair | .n1single | .n2pair | .n2single => niftiSaveOrig cls.traits env dt fault w
+  | .spm99 | .spm2 => spmSaveWith (analyzeSaveOrig cls.traits env dt fault) cls.traits env fault w
+  | .mgh => mghSave cls.traits env dt fault w
+  | _ => analyzeSaveOrig cls.traits env dt fault w
+
+structure SaveReq where
+  dtype   : DtReq
+  fileMap : Option Nat      -- `file_map=None` → the image's own
+  fault   : Fault
+  deriving Repr, DecidableEq, Inhabited
+
+structure Outcome where
+  err   : Option Err
+  img   : Img
+  calls : Nat
+  log   : List IoCall       -- oldest first
+  out   : List Chunk        -- oldest first
+  deriving Repr, DecidableEq, Inhabited
+
+def finish (img : Img) (target : Nat) (r : Res) : Outcome :=
+  { err := r.1, img := { core := r.2.img, fileMap := if r.2.bound then target else img.fileMap },
+    calls := r.2.calls, log := r.2.log.reverse, out := r.2.out.reverse }
+
+/-- `img.to_file_map(file_map, dtype=…)` on a destination with the given fault -/
+def save (cls : Cls) (env : Env) (req : SaveReq) (img : Img) : Outcome :=
+  finish img (req.fileMap.getD img.fileMap) (saveWorld cls env req.dtype req.fault { img := img.core })
+
+def saveOrig (cls : Cls) (env : Env) (req : SaveReq) (img : Img) : Outcome :=
+  finish img (req.fileMap.getD img.fileMap) (saveWorldOrig cls env req.dtype req.fault { img := img.core })
+
+/-! ### histories -/
+
+inductive Op where
+  | save (env : Env) (req : SaveReq)
+  | setDtype (c : Nat)        -- img.set_data_dtype(<numpy dtype whose code is c>)
+  | setAlias (a : Alias)      -- img.set_data_dtype('compat' | 'smallest')
+
+def Op.isSave : Op → Bool
+  | .save _ _ => true
+  | _ => false
+
+/-- `img.set_data_dtype(dtype)`: NIfTI classes clear the alias first (also when the header then
+    refuses the dtype), the others go straight to the header -/
+def setDtypeOp (cls : Cls) (c : Nat) (k : Core) : Option Err × Core :=
+  let k1 := if cls.isNifti then { k with alias := none } else k
+  if c ∈ cls.traits.codes then (none, { k1 with hdr := { k1.hdr with dtype := c } }) else (some .headerData, k1)
+
+def setAliasOp (cls : Cls) (a : Alias) (k : Core) : Option Err × Core :=
+  if cls.isNifti then (none, { k with alias := some a }) else (some .headerData, k)
+
+def step (cls : Cls) (img : Img) : Op → Option Err × Img
+  | .save env req => let o := save cls env req img; (o.err, o.img)
+  | .setDtype c => let r := setDtypeOp cls c img.core; (r.1, { img with core := r.2 })
+  | .setAlias a => let r := setAliasOp cls a img.core; (r.1, { img with core := r.2 })
+
+def run (cls : Cls) (img : Img) : List Op → Img
+  | [] => img
+  | op :: ops => run cls (step cls img op).2 ops
 
 end Nb.C07
